@@ -364,7 +364,8 @@ class Schema(dict, metaclass=LogicalMeta):
             if unprovided(addition):
                 # ignore addition
                 return
-            return super().__setitem__(alias, value)
+            # store the parsed addition (converted by the addition type), not the raw input
+            return super().__setitem__(alias, addition)
 
         return self.__field_setter__(value, field=field)
 
